@@ -289,8 +289,9 @@ func isHelper(f *ssa.Function) bool {
 // see folded into their callers as well, so that the tree looks the same
 // whether such a helper exists, is split in two or is written out in place.
 var foldedRefFuncs = map[string]bool{
-	"(*" + ModPath + "/lib/opshell.Shell).resetSilenceTimer": true, /* C19 reasons about the time store and the timer reset at the places which need them */
-	"(*" + ModPath + "/internal/hsrv.Server).readTemplate":   true, /* C07 reasons about where the executed template comes from, on the paths of the handler itself */
+	"(*" + ModPath + "/lib/opshell.Shell).resetSilenceTimer":    true, /* C19 reasons about the time store and the timer reset at the places which need them */
+	"(*" + ModPath + "/internal/hsrv.Server).printCallbackHelp": true, /* C04 looks for the print of the help text where it happens */
+	"(*" + ModPath + "/internal/hsrv.Server).readTemplate":      true, /* C07 reasons about where the executed template comes from, on the paths of the handler itself */
 }
 
 // flatten folds helpers into their callers and hides the helpers which are no
